@@ -10,7 +10,7 @@
 From Coq Require Import List Bool Arith.
 From Coq Require Import Init.Byte.
 From LMBase Require Import Res.
-From LMTransfac Require Import Bytes Stream Nom TransfacParse TransfacReader Checkers TransfacPoll TransfacFault GenReader.
+From LMTransfac Require Import Bytes Stream Nom TransfacParse TransfacReader Checkers TransfacPoll TransfacFault GenReader TransfacCur.
 From LMTransfac Require Import StreamProofs NomProofs ParseProofs ReaderProofs CheckProofs PollProofs FaultProofs FaultTotal.
 Import ListNotations.
 
@@ -161,10 +161,45 @@ Proof. exact end_is_final. Qed.
 (* ---- round 3: streams whose fill_buf fails (TransfacFault.v) ---- *)
 
 (* Without faults the fault model (the one the driver runs against the scripted streams) is
-   the reader model of the theorems above. *)
-Theorem fault_free_agree : forall (parse : parser record) (post : nat) (s : stream),
+   the reader model of the theorems above -- whichever way `last` is advanced after a line:
+   `last += n` (flag false, the source before /repo 23feb61) and `last = buffer.len()` (flag
+   true, the source since) are the same function of a stream without faults, because `last`
+   is the length of the buffer whenever one of the loops is entered.  The reader model
+   (TransfacReader.new_loop / next_loop) is written with `length buf'`, like the source. *)
+Theorem fault_free_agree_any : forall (parse : parser record) (fixed : bool) (post : nat) (s : stream),
+  run_reader_post_e parse fixed post (map EData s) = run_reader_post parse post s.
+Proof. exact fault_free_agree_any. Qed.
+
+(* (name of round 3) the reader as it was *)
+Corollary fault_free_agree : forall (parse : parser record) (post : nat) (s : stream),
   run_reader_post_e parse false post (map EData s) = run_reader_post parse post s.
 Proof. exact fault_free_agree_lemma. Qed.
+
+(* the reader as the translator finds it in reader.rs on this run *)
+Corollary fault_free_agree_current : forall (parse : parser record) (post : nat) (s : stream),
+  run_reader_post_e parse reader_last_is_buffer_len post (map EData s) = run_reader_post parse post s.
+Proof. intros parse. exact (FaultProofs.fault_free_agree_any parse reader_last_is_buffer_len). Qed.
+
+(* ... and the assignment the translator finds IS the one the reader model is written with
+   (`last = buffer.len()` / `length buf'`): re-checked against GenReader.v on every run.  A source
+   that goes back to `last += n` breaks this obligation (and F-T1 is back: fault scripts panic). *)
+Theorem reader_model_last_is_source_last : reader_last_is_buffer_len = true.
+Proof. reflexivity. Qed.
+
+(* The comparison the driver makes on every C15 case (`fault-model-differs-from-reader-model-
+   without-faults`) can never fail: the trace of the current fault model over the data as one
+   event stream without faults is what the reader model observes. *)
+Theorem fault_free_trace_current : forall (al : alpha) (post : nat) (s : stream),
+  observe_trace (trace_run_e (parse_record_fixed al) reader_last_is_buffer_len post (map EData s)) =
+  observe_run (run_reader_post (parse_record_fixed al) post s).
+Proof.
+  intros al post s.
+  pose proof (trace_run_ok_lemma (parse_record_fixed al) reader_last_is_buffer_len post (map EData s)) as T.
+  change (map EData s) with (lift_stream s) in *.
+  rewrite (FaultProofs.fault_free_agree_any (parse_record_fixed al) reader_last_is_buffer_len post s) in T.
+  destruct (run_reader_post_total (parse_record_fixed al) (parse_record_fixed_total al) post s) as (l & H & _).
+  rewrite H in *. rewrite T. unfold observe_trace, observe_run. rewrite map_map. reflexivity.
+Qed.
 
 (* The trace compared with the implementation is the outcome list of the run when the run is
    Ok, and contains a panic / hang mark otherwise. *)
@@ -266,6 +301,52 @@ Proof. intros b. destruct b; split; reflexivity. Qed.
 Theorem alpha_k_is_generated : alpha_k Dna = gen_k_dna /\ alpha_k Protein = gen_k_protein.
 Proof. split; reflexivity. Qed.
 
+(* ---- wave 3: the F18 class, statically ----
+   error.rs:35 is `nom::Err::Incomplete(_) => unreachable!()`; the reader model has this site
+   (TransfacReader.error_from: Panic 3) and parser_total shows that the parser model never
+   answers Incomplete -- for the COMPLETE combinators.  That parse.rs uses complete combinators
+   only is re-read from the source on every run (GenReader.gen_parse_streaming = every path with
+   a segment `streaming`, outside #[cfg(test)]; gen_parse_mentions_incomplete = `Incomplete` /
+   `Needed` named by the parser itself):
+     parse_streaming_is_modelled   whatever was found is something the nom model handles
+                                   (only `character::streaming::space1`, only in parse_alphabet);
+     parsers_are_complete          nothing was found;
+     parse_record_cur_is_fixed     hence the parser the driver runs (TransfacCur.parse_record_cur,
+                                   selected by those constants) is parse_record_fixed, the parser of
+                                   every theorem of this file and of C14.v;
+     parser_total_current / reader_total_current / reader_total_post_current
+                                   totality of what the driver runs.
+   Going back to the streaming space1 (F18) keeps the first and breaks the others; any other
+   streaming combinator breaks all of them. *)
+Theorem parse_streaming_is_modelled : parse_streaming_modelled = true.
+Proof. reflexivity. Qed.
+
+Theorem parsers_are_complete : gen_parse_streaming = [] /\ gen_parse_mentions_incomplete = false.
+Proof. split; reflexivity. Qed.
+
+Theorem parse_record_cur_is_fixed : forall al : alpha, parse_record_cur al = parse_record_fixed al.
+Proof. intros al. reflexivity. Qed.
+
+Theorem parser_total_current : forall (al : alpha) (input : str),
+  parse_record_cur al input <> PIncomplete /\ parse_record_cur al input <> PFuel.
+Proof. intros al. rewrite parse_record_cur_is_fixed. exact (parse_record_fixed_total al). Qed.
+
+Theorem reader_total_current : forall (al : alpha) (s : stream),
+  exists l, run_reader (parse_record_cur al) s = Ok l /\
+            exists rs o, l = map ORec rs ++ [o] /\ (o = OEnd \/ exists e, o = OErr e).
+Proof. intros al. rewrite parse_record_cur_is_fixed. exact (reader_total al). Qed.
+
+Theorem reader_total_post_current : forall (al : alpha) (s : stream) (post : nat),
+  exists l, run_reader_post (parse_record_cur al) post s = Ok l /\
+            exists rs o tail, l = map ORec rs ++ o :: tail /\ is_rec o = false /\ length tail = post.
+Proof. intros al. rewrite parse_record_cur_is_fixed. exact (reader_total_post al). Qed.
+
+(* what "handled by the model" means for the one streaming combinator: with the streaming space1
+   the parser model does answer Incomplete (and the reader panics: reader_total_streaming_refuted) *)
+Example streaming_space1_is_incomplete :
+  parse_record_streaming Dna ["P";"0";" ";" "]%byte = PIncomplete.
+Proof. vm_compute. reflexivity. Qed.
+
 (* F-T1 (finding of round 3, confirmed on the code): with a BufRead that fails ONCE in the middle
    of a line and then continues, the code as it is panics when it is polled again: std's read_line
    keeps the valid partial line "NA" in the buffer, `last` is not advanced, the rest of the line
@@ -278,6 +359,26 @@ Theorem reader_polls_fault_refuted :
   run_reader_post_e (parse_record_fixed Dna) false 1 ft1_stream = Panic 2 /\
   trace_run_e (parse_record_fixed Dna) false 1 ft1_stream = [SOut (OErr EIo); SPanic].
 Proof. split; vm_compute; reflexivity. Qed.
+
+(* wave 3 (review C14-7): what std does when `fill_buf` returns an EMPTY slice although more bytes
+   follow (event EEof: read_until returns what it has -- a line without line feed, or nothing) is part of
+   the fault model; reader_total_faults_repaired / reader_total_faults_current quantify over such events
+   too: no panic, no hang.  The OUTCOMES are not those of the uninterrupted stream (such a BufRead is not a
+   chunking of a byte string; C14 does not speak of it): an end of input reported between two records is
+   returned as the end of input and the next request returns the next record; a transient end inside a
+   multi-byte character is an InvalidData error, twice. *)
+Definition eof_between_records : estream :=
+  [EData ["I";"D";" ";"x";x0a;"/";"/";x0a]%byte; EEof; EData ["I";"D";" ";"y";x0a;"/";"/";x0a]%byte].
+Definition eof_inside_character : estream :=
+  [EData ["I";"D";" ";xc3]%byte; EEof; EData [xa9;x0a;"/";"/";x0a]%byte].
+
+Example ex_transient_eof :
+  (exists r1 r2, run_reader_post_e (parse_record_fixed Dna) true 3 eof_between_records
+                 = Ok [ORec r1; OEnd; ORec r2; OEnd; OEnd] /\
+                 r_id r1 = Some ["x"]%byte /\ r_id r2 = Some ["y"]%byte) /\
+  (exists r, run_reader_post_e (parse_record_fixed Dna) true 3 eof_inside_character
+             = Ok [OErr EIo; OErr EIo; ORec r; OEnd] /\ r_id r = None).
+Proof. split; [eexists _, _|eexists]; vm_compute; repeat split. Qed.
 
 (* the same stream with the proposed repair (`last = buffer.len()`): the line is reassembled *)
 Example ft1_repaired :
@@ -297,6 +398,18 @@ Check reader_polls_total : forall al s k,
 Check reader_total_post : forall al s post,
   exists l, run_reader_post (parse_record_fixed al) post s = Ok l /\
             exists rs o tail, l = map ORec rs ++ o :: tail /\ is_rec o = false /\ length tail = post.
+
+Check fault_free_agree_any : forall parse fixed post s,
+  run_reader_post_e parse fixed post (map EData s) = run_reader_post parse post s.
+Check fault_free_agree_current : forall parse post s,
+  run_reader_post_e parse reader_last_is_buffer_len post (map EData s) = run_reader_post parse post s.
+Check reader_model_last_is_source_last : reader_last_is_buffer_len = true.
+Check parsers_are_complete : gen_parse_streaming = [] /\ gen_parse_mentions_incomplete = false.
+Check parser_total_current : forall al input,
+  parse_record_cur al input <> PIncomplete /\ parse_record_cur al input <> PFuel.
+Check reader_total_current : forall al s,
+  exists l, run_reader (parse_record_cur al) s = Ok l /\
+            exists rs o, l = map ORec rs ++ [o] /\ (o = OEnd \/ exists e, o = OErr e).
 
 (* ---- non-vacuity: the model really reads records, reports errors and the end ---- *)
 Local Open Scope byte_scope.
